@@ -73,3 +73,8 @@ func fromInts(a []int) []byte {
 	}
 	return out
 }
+
+func readFile(p string) (string, error) {
+	b, err := os.ReadFile(p)
+	return string(b), err
+}
